@@ -12,7 +12,9 @@ CONFLICTS = ["hj", "jh", "hc", "hD", "jc", "cj", "jD", "Dj", "cD", "hjcD", "jm",
 GOOD_FILES = ["test.dmp", "linux-mini.dmp", "simple-crashpad.dmp", "pipeline-inlines-macos-segv.dmp"]
 BAD_FILES = ["invalid-parameter.dmp", "invalid-range.dmp", "invalid-record-count.dmp", "full-dump.dmp"]
 NSYNTH = 8
-FIELDS = ["input", "sym", "modes", "brief", "pretty", "feat", "rfa", "out", "cy", "log", "verbose", "stdout", "evil", "noflags", "lim", "ldi"]
+FIELDS = ["input", "sym", "modes", "brief", "pretty", "feat", "rfa", "out", "cy", "log", "verbose", "stdout", "evil", "noflags", "lim", "ldi", "argv"]
+FEATURE_VALUES = ["stable-basic", "stable-all", "unstable-all"]            # --help: [possible values: ...]
+VERBOSE_VALUES = ["off", "error", "warn", "info", "debug", "trace"]
 # the accepted output option sets: (modes, brief, pretty)
 ACCEPTED = [(m, b, 0) for m in ("-", "h", "D") for b in (0, 1)] + [("j", 0, p) for p in (0, 1)] + \
            [("c", b, p) for b in (0, 1) for p in (0, 1)]
@@ -28,19 +30,84 @@ def thorough_requested():
 
 
 def mk(input_, sym="n", modes="-", brief=0, pretty=0, feat=9, rfa=0, out="-", cy="-", log_="-", verbose="e",
-       stdout="o", evil=0, noflags=0, lim=0, ldi=0):
+       stdout="o", evil=0, noflags=0, lim=0, ldi=0, argv=None):
     if "c" in modes and cy == "-":
         cy = "g"
     line = "%s %s %s %d %d %d %d %s %s %s %s %s %d %d" % (input_, sym, modes, brief, pretty, feat, rfa, out, cy, log_,
                                                            verbose, stdout, evil, noflags)
-    if lim or ldi:
+    if lim or ldi or argv:
         line += " %d %d" % (lim, ldi)
+    if argv:
+        line += " " + argv
     return line
+
+
+def enc_argv(tag, toks):
+    """the 17th case token: the complete argument vector, percent-encoded (see harness/src/bin/c20.rs)"""
+    def enc(t):
+        if t == "":
+            return "%_"
+        return "".join(ch if (ch.isalnum() or ch in "-_.=@/+:") else "%%%02X" % ord(ch) for ch in t)
+    return "A%s:%s" % (tag, ",".join(enc(t) for t in toks) if toks else "!")
+
+
+def base_argv(modes="-", brief=0, pretty=0, feat=9, rfa=0, out="-", cy="-", log_="-", verbose="e", sym="n", eq=False):
+    """the argument vector harness/src/bin/c20.rs builds for these fields, written with the placeholders @D @O @C @L @S;
+    eq: every valued option in its `--name=value` form"""
+    a = []
+
+    def opt(name, val):
+        if eq:
+            a.append("%s=%s" % (name, val))
+        else:
+            a.extend([name, val])
+    for m in modes:
+        if m == "h":
+            a.append("--human")
+        elif m == "j":
+            a.append("--json")
+        elif m == "D":
+            a.append("--dump")
+        elif m == "c":
+            opt("--cyborg", "@C")
+    if brief:
+        a.append("--brief")
+    if pretty:
+        a.append("--pretty")
+    if feat != 9:
+        opt("--features", FEATURE_VALUES[feat])
+    if rfa:
+        a.append("--recover-function-args")
+    if out != "-":
+        opt("--output-file", "@O")
+    if log_ != "-":
+        opt("--log-file", "@L")
+    if verbose != "e":
+        opt("--verbose", verbose)
+    if sym == "s":
+        opt("--symbols-path", "@S")
+    a.append("@D")
+    if sym == "p":
+        a.append("@S")
+    return a
+
+
+def near_misses(value):
+    """spellings that are NOT the enumerated value but close to it"""
+    v = value
+    out = [v.upper(), v.capitalize(), v.title(), v[:-1], v[0], v + " ", " " + v, v + "x", v.replace("-", "_") if "-" in v else v + "-",
+           v.swapcase(), v + "\n", v[:1].upper() + v[1:-1] + v[-1:].upper(), v + ",", '"%s"' % v]
+    seen, res = {v}, []
+    for x in out:
+        if x not in seen:
+            seen.add(x)
+            res.append(x)
+    return res
 
 
 def parse_case(line):
     t = line.split()
-    d = dict(zip(FIELDS, t + ["0", "0"][len(t) - 14:]))
+    d = dict(zip(FIELDS, t + ["0", "0"][len(t) - 14:] + (["-"] if len(t) < 17 else [])))
     for k in ("brief", "pretty", "feat", "rfa", "evil", "noflags", "lim", "ldi"):
         d[k] = int(d[k])
     return d
@@ -123,7 +190,7 @@ def sink_len(s):
 
 class C20(PropBase):
     pid = "C20"
-    translators = ["c20_dump_sequence.py", "c20_wiring.py"]
+    translators = ["c20_dump_sequence.py", "c20_wiring.py", "c20_cli.py"]
     coq_dirs = ["C20"]
     bins = ["c20"]
     impl_timeout = 1500
@@ -398,6 +465,135 @@ class C20(PropBase):
         for modes, pretty in (("j", 0), ("j", 1), ("c", 0), ("-", 0)):
             for inp in ("F:test.dmp", "F:linux-mini.dmp"):
                 add("evil_json", mk(inp, "p", modes, 0, pretty, 9, 0, rng.choice(["-", "g"]), evil=1))
+        # O. the argument vector itself: near-miss spellings of every enumerated option value, repeated options, `=`-joined
+        #    and space-separated forms, options behind the minidump and behind `--`, unknown / abbreviated / wrongly cased
+        #    option names, values for flags, missing values, numbers at the edge of u64, --help / --version among other
+        #    arguments.  tag S: the command the fields describe, spelt differently; N: a near miss (must be rejected without
+        #    a report, or be taken for that command); R: not a command line of the tool; H: help / version
+        def argv_case(fam, tag, toks, inp="F:test.dmp", **kw):
+            kw.setdefault("sym", "n")
+            sym = kw.pop("sym")
+            add(fam, mk(inp, sym, kw.pop("modes", "-"), kw.pop("brief", 0), kw.pop("pretty", 0), kw.pop("feat", 9), kw.pop("rfa", 0),
+                        kw.pop("out", "-"), kw.pop("cy", "-"), kw.pop("log_", "-"), kw.pop("verbose", "e"), argv=enc_argv(tag, toks), **kw))
+
+        shapes = [dict(modes="-"), dict(modes="j", out="g"), dict(modes="c", brief=1, out="g"), dict(modes="D", brief=1),
+                  dict(modes="j", pretty=1, log_="g"), dict(modes="h", sym="p")]
+        for fi, value in enumerate(FEATURE_VALUES):
+            for k, bad in enumerate(near_misses(value)):
+                for eq in (False, True):
+                    if not thorough and (k + fi + eq) % 2 and k > 4:
+                        continue
+                    shp = dict(shapes[(k + fi + eq) % len(shapes)])
+                    toks = base_argv(feat=fi, eq=eq, **shp)
+                    i = toks.index("--features=" + value) if eq else toks.index("--features") + 1
+                    toks[i] = ("--features=" + bad) if eq else bad
+                    argv_case("argv_near_miss_values", "N", toks, rng.choice(["F:test.dmp", "F:test.dmp", "S:0", "X:missing"]), feat=fi, **shp)
+        for vi, value in enumerate(VERBOSE_VALUES):
+            for k, bad in enumerate(near_misses(value) + [str(vi), ""]):
+                if not thorough and (k + vi) % 3 and k > 2:
+                    continue
+                eq = (k + vi) % 2 == 0
+                shp = dict(shapes[(k + vi) % len(shapes)])
+                if shp.get("log_") != "g" and (k % 2):
+                    shp["log_"] = "g"
+                toks = base_argv(verbose=value, eq=eq, **shp)
+                i = toks.index("--verbose=" + value) if eq else toks.index("--verbose") + 1
+                toks[i] = ("--verbose=" + bad) if eq else bad
+                argv_case("argv_near_miss_values", "N", toks, rng.choice(["F:test.dmp", "S:0", "F:invalid-range.dmp"]), verbose=value, **shp)
+        # every flag and every single-valued option given twice (same value, two values); repeatable options twice
+        for flag, kw in (("--json", dict(modes="j")), ("--human", dict(modes="h")), ("--dump", dict(modes="D")), ("--brief", dict(brief=1)),
+                         ("--pretty", dict(modes="j", pretty=1)), ("--recover-function-args", dict(rfa=1, sym="p")),
+                         ("--no-color", {}), ("--no-interactive", {}), ("--use-local-debuginfo", {})):
+            for where in ("adjacent", "apart"):
+                toks = base_argv(**kw)
+                if flag not in toks:
+                    toks.insert(0, flag)
+                if where == "adjacent":
+                    toks.insert(toks.index(flag), flag)
+                else:
+                    toks.append(flag)
+                argv_case("argv_repeats", "N", toks, out=rng.choice(["-", "-"]), **kw)
+        for name, v1, v2, kw in (("--features", "stable-all", "unstable-all", dict(feat=2, sym="p")), ("--features", "unstable-all", "unstable-all", dict(feat=2)),
+                                 ("--verbose", "error", "trace", dict(verbose="trace")), ("--output-file", "@O.first", "@O", dict(out="g", modes="j")),
+                                 ("--log-file", "@L.first", "@L", dict(log_="g")), ("--cyborg", "@C.first", "@C", dict(modes="c")),
+                                 ("--cyborg", "@C", "@C", dict(modes="c", out="g")),
+                                 ("--symbols-download-timeout-secs", "5", "6", {}), ("--symbols-cache", "@O.d1", "@O.d2", {}),
+                                 ("--symbols-tmp", "@O.d1", "@O.d2", {}), ("--evil-json", "@S/../evil.json", "@S/../evil.json", dict(evil=1))):
+            for form in (0, 1, 2):
+                toks = [t for t in base_argv(**{k: v for k, v in kw.items() if k != "evil"}) if True]
+                # drop the single occurrence base_argv wrote, then put two in front
+                cleaned, skip = [], False
+                for t in toks:
+                    if skip:
+                        skip = False
+                        continue
+                    if t == name:
+                        skip = True
+                        continue
+                    cleaned.append(t)
+                two = ([name, v1, name, v2], [name + "=" + v1, name + "=" + v2], [name, v1] + cleaned[:-1] + [name + "=" + v2])[form]
+                toks = (two + cleaned) if form < 2 else (two + cleaned[-1:])
+                if "@S" in toks and kw.get("sym") == "p":
+                    toks.remove("@S")
+                    toks.append("@S")
+                argv_case("argv_repeats", "N", toks, **kw)
+        for toks, kw in ((["--symbols-path", "@S", "--symbols-path=@S", "@D"], dict(sym="s")), (["@D", "@S", "@S"], dict(sym="p")),
+                         (["--symbols-path", "@S", "@D", "--symbols-path", "@S"], dict(sym="s", modes="j"))):
+            argv_case("argv_repeats", "S", ["--json"] + toks if kw.get("modes") == "j" else toks, **kw)
+        # the same command, spelt differently: `=` forms, options behind the minidump, `--`
+        for modes, brief, pretty in ACCEPTED:
+            for feat in (9, 0, 1, 2):
+                if not thorough and rng.chance(1, 2):
+                    continue
+                kw = dict(modes=modes, brief=brief, pretty=pretty, feat=feat, out=rng.choice(["-", "g"]), log_=rng.choice(["-", "-", "g"]),
+                          verbose=rng.choice(["e", "warn", "error"]), sym=rng.choice(["n", "p", "s"]))
+                toks = base_argv(eq=True, **kw)
+                argv_case("argv_forms", "S", toks, **kw)
+                toks = base_argv(eq=rng.chance(1, 2), **kw)
+                d = toks.index("@D")
+                opts, tail = toks[:d], toks[d + 1:]
+                style = rng.below(3)
+                if style == 0:      # every option behind the minidump (and behind the positional symbol path)
+                    argv_case("argv_forms", "S", ["@D"] + tail + opts, **kw)
+                elif style == 1:    # `--` in front of the positionals
+                    argv_case("argv_forms", "S", opts + ["--", "@D"] + tail, **kw)
+                else:               # half in front, half behind; never splitting an option from its value
+                    cut = len(opts) // 2
+                    if cut and opts[cut - 1].startswith("--") and "=" not in opts[cut - 1] and cut < len(opts) and not opts[cut].startswith("--"):
+                        cut += 1
+                    argv_case("argv_forms", "S", opts[:cut] + ["@D"] + tail + opts[cut:], **kw)
+        for v, tag in (("0", "S"), ("+5", "S"), ("007", "S"), ("18446744073709551615", "S"), ("18446744073709551616", "R"), ("-1", "R"), ("abc", "R"),
+                       ("", "R"), ("5 ", "R"), ("1e3", "R"), ("0x10", "R"), ("99999999999999999999999999999999999999", "R")):
+            for eq in (False, True):
+                toks = ["--symbols-download-timeout-secs=" + v] if eq else ["--symbols-download-timeout-secs", v]
+                argv_case("argv_numbers", tag, toks + ["@D"])
+        # not a command line of the tool
+        for toks in (["--feature", "stable-all", "@D"], ["--feat=stable-all", "@D"], ["--JSON", "@D"], ["--Json", "@D"], ["--jso", "@D"], ["--j", "@D"],
+                     ["-j", "@D"], ["-x", "@D"], ["@D", "-x"], ["--json=true", "@D"], ["--pretty=false", "--json", "@D"], ["--brief=", "@D"],
+                     ["@D", "--features"], ["@D", "--output-file"], ["--output-file", "--json", "@D"], ["--output-file", "--", "@D"],
+                     ["--cyborg", "@D"], ["--cyborg", "--brief", "@D"], [], ["--"], [""], ["--json"], ["--json", "--"], ["--output-file=", "@D"],
+                     ["--cyborg=", "@D"], ["--log-file", "", "@D"], ["@D", ""], ["--symbols-path=", "@D"], ["--verbose", "@D"], ["--features", "@D"],
+                     ["--bogus", "--help"], ["--features", "Bogus", "--help"], ["--help=foo"], ["--version=1"], ["--json", "--json", "--help"],
+                     ["--=x", "@D"], ["---json", "@D"], ["--json ", "@D"], ["--human", "--cyborg", "@C", "@D"], ["--help-markdown"],
+                     ["--help-markdown", "--json", "@D"], ["--output_file", "@O", "@D"], ["--outputfile=@O", "@D"], ["-o", "@O", "@D"]):
+            argv_case("argv_invalid", "R", toks, out="g" if any("@O" in t for t in toks) else "-", modes="c" if any("@C" in t for t in toks) else "-")
+        # help / version: status 0, text on standard output, no sink is opened (clap ends the process inside Cli::parse())
+        for toks in (["--help"], ["-h"], ["--version"], ["-V"], ["-hV"], ["-Vh"], ["-hx"], ["--help", "--bogus"], ["-h", "--bogus"],
+                     ["--json", "--human", "--help"], ["--features", "stable-all", "--help"], ["@D", "--help"], ["@D", "@S", "-V"],
+                     ["--log-file", "@L", "--json", "--output-file=@O", "--help", "@D"], ["--cyborg", "@C", "--log-file=@L", "@D", "--version"],
+                     ["--output-file", "@O", "-h"], ["--help-markdown", "@D", "--help"], ["--verbose=trace", "--log-file", "@L", "--version", "@D"]):
+            for pre in ("g", "xl"):
+                has = lambda ph: any(ph in t for t in toks)
+                if pre == "xl" and not (has("@O") or has("@L") or has("@C")):
+                    continue
+                argv_case("argv_help", "H", toks, out=pre if has("@O") else "-", log_=pre if has("@L") else "-",
+                          modes="c" if has("@C") else "-", cy=pre if has("@C") else "-")
+        # valid but unusual
+        for toks, kw in ((["--", "@D"], {}), (["--json", "--", "@D"], dict(modes="j")), (["--json", "--", "@D", "@S"], dict(modes="j", sym="p")),
+                         (["--", "--help"], dict(inp="X:missing")), (["--", "--json"], dict(inp="X:missing")), (["-"], dict(inp="X:missing")),
+                         (["@D", "--", "@S"], dict(sym="p")), (["--features=stable-all", "@D", "--", "@S"], dict(sym="p", feat=1))):
+            inp = kw.pop("inp", "F:test.dmp")
+            argv_case("argv_forms", "S", toks, inp, **kw)
         if thorough:
             # G. logging options, no-op flags, evil json, both symbol path styles at once
             for _ in range(1500):
@@ -449,9 +645,24 @@ class C20(PropBase):
             return "exit status %s (only 0 and 1 are documented)" % ex
         rejected, prim, sec = documented(c)
         outputs = [("standard output", stdout), ("the output file", out), ("the cyborg file", cy)]
+        # raw argument vectors: R = not a command line of the tool, N = a near miss of the command the fields describe (an
+        # enumerated value in another case / cut short / with a blank, an option given twice): it must fail without a
+        # report - or be taken for that command and then do everything that command does; H = help / version
+        tag = c["argv"][1] if c.get("argv", "-") != "-" else None
+        if tag == "H":
+            if ex != "0":
+                return "--help / --version ended with status %s" % ex
+            if not sink_len(stdout):
+                return "--help / --version printed nothing on standard output"
+            for nm, x in outputs:
+                if isinstance(x, tuple) and x[2] and x[0] and (nm != "standard output"):
+                    return "--help / --version wrote a report to %s" % nm
+            return None
+        if tag == "R" or (tag == "N" and ex != "0"):
+            rejected = True
         if rejected:
             if ex == "0":
-                return "a rejected option combination exited with status 0"
+                return "a rejected %s exited with status 0" % ("command line" if tag else "option combination")
             for nm, s in outputs:
                 if sink_len(s):
                     return "a rejected option combination wrote %d bytes to %s" % (sink_len(s), nm)
